@@ -143,8 +143,15 @@ def run_case(case):
             tgot = {ref.attractor_of(ref.state_of(s)) for s in ts if bb.is_full_state(ref, s)}
             if tgot != exp or len(ts) != len(exp):
                 res.v(f"fallback-seeds-differ:{kind}", f"node {i} ({d['space']}): seeds via fallback {ts}, reference has {len(exp)} attractors", ctx=ctx)
+            if rr.random() < 0.5:
+                # memory reclamation between the fallback seeds and the sets: the sets must still follow the seeds' order
+                twin.reclaim_node_data()
+                res.c("reclaim_between_fallback_seeds_and_sets")
             tsets = W(lambda: twin.node_attractor_sets(i, compute=True), nodes=len(twin))
-            judge_sets(ref, twin, i, tsets, ts, res, f"{kind}:twin", bb, ctx=ctx)
+            ts_now = twin.node_attractor_seeds(i)
+            if ts_now != ts:
+                res.v(f"fallback-seeds-changed:{kind}", f"node {i}: seeds changed from {ts} to {ts_now} after requesting sets", ctx=ctx)
+            judge_sets(ref, twin, i, tsets, ts_now, res, f"{kind}:twin", bb, ctx=ctx)
         except bb.Aborted as e:
             res.inconclusive = f"aborted: {e}"
         except RuntimeError as e:
